@@ -21,10 +21,10 @@ func c15ReporterJobs(tier string) []*SeqJob {
 	depth := tierInt(tier, 4, 5)
 	exec := func(kind string, ndest int) func(hist []int) (string, string, string, int) {
 		return func(hist []int) (cl, det, key string, steps int) {
-			var sinks []*sink
+			var sinks []*fastSink
 			var addrs []string
 			for i := 0; i < ndest; i++ {
-				s := newSink()
+				s := newFastSink()
 				sinks = append(sinks, s)
 				addrs = append(addrs, s.addr)
 			}
@@ -67,7 +67,7 @@ func c15ReporterJobs(tier string) []*SeqJob {
 					return "close-error", err.Error()
 				}
 				for d, s := range sinks {
-					dgs := s.wait(ndg)
+					dgs := s.drain(ndg)
 					got := map[string]int{}
 					for i, dg := range dgs {
 						msg, err := decodeMessage(kind, dg)
